@@ -225,7 +225,7 @@ def check_seq(prop, tier, seed):
         if prop == "C12":
             ntr, v = validate_all(work, allagree, T_MON[prop], module="TraceAgree.tla")
         else:
-            ntr, v = validate_all(work, alltraces, T_MON[prop])
+            ntr, v = validate_all(work, alltraces, T_MON[prop], chunks=4 if quick else 12)
         cov["traces_validated_against_impl"] = ntr
         if v:
             violations += known_or_violation(prop, seed, v)
